@@ -121,6 +121,7 @@ def run_tokens(outcome, tier, seed):
     st = json.loads(p.stdout)
     for f in st["failures"]:
         fmt, hx, s, r = f.split(" ", 3)
+        fmt = fmt.split("+")[0]      # "json+bom": the sequences behind a byte order mark
         outcome.oracle_failures.append({"what": "slice and reader disagree on a short token sequence", "from": fmt, "input_hex": hx,
                                         "slice": s, "reader": r})
     for f in st["panics"]:
@@ -129,7 +130,8 @@ def run_tokens(outcome, tier, seed):
     outcome.distinct_nontrivial += st["nontrivial"]
     outcome.extra["token_sequences"] = {"sequences": st["cases"], "by_format": st["by_format"], "verdicts(slice,reader)": st["verdicts"],
                                         "max_length": st["max_len"], "known_class_hits": st["known_hits"],
-                                        "alphabets": {"json": 14, "yaml": 24, "msgpack": 30}}
+                                        "alphabets": {"json": 14, "yaml": 24, "msgpack": 30},
+                                        "behind_a_utf8_byte_order_mark": "every JSON and YAML sequence up to length 3, read with 1-byte and with 2-byte reads"}
     outcome.extra["exhaustive"] = True
     if st["known_hits"]:
         outcome.known_hits.append(("K-C02-json-adjacent-scalars",
@@ -170,6 +172,15 @@ def run_sessions(outcome, tier, seed):
                 for s in scheds:
                     reqs.append({"id": len(reqs), "to": to, "calls": [{"input": shared.hx(data), "from": frm, "mode": "reader", "sched": s}]})
                 plans.append((data, frm, to, base, len(scheds)))
+    # UTF-16 YAML under 2 MiB whose UTF-8 re-encoding is over 2 MiB, format named and detected, coarse schedules
+    for data in corpus.big_reencoded():
+        for frm in (None, "yaml"):
+            base = len(reqs)
+            reqs.append({"id": base, "to": "json", "calls": [{"input": shared.hx(data), "from": frm, "mode": "slice"}]})
+            scheds = [{"kind": "fixed", "n": 65536}, {"kind": "fixed", "n": 50001}]
+            for s in scheds:
+                reqs.append({"id": len(reqs), "to": "json", "calls": [{"input": shared.hx(data), "from": frm, "mode": "reader", "sched": s}]})
+            plans.append((data, frm, "json", base, len(scheds)))
     resps = common.harness_batch(reqs, timeout=1800)
     known = {"K-C02-json-adjacent-scalars": 0, "K-C02-json-dupkey-toml": 0}
     compared = 0
